@@ -133,7 +133,25 @@ template <int I1, int L1, int I2, int L2, size_t N, class V, size_t BND> static 
     auto storage = make_storage<LF, N>(s);
     fill<LF, N, S, M>(storage, s);
     field<SF> f(make_parameter_pack(typename SF::configuration_t(m), std::monostate{}, std::move(storage)));
+    // snapshot of the source at a symbolic lattice coordinate (the copying conversion must leave it alone)
+    typename LF::contravariant_input_t::vector_t p0;
+    for (size_t k = 0; k < N; k++) { size_t a = vf_nondet_size(); vf_assume(a < s[k]); p0[k] = a; }
+    S snap[M];
+    {
+        typename LF::non_owning_data_t v0(f.backend().get_backend().get_backend());
+        for (size_t j = 0; j < M; j++) snap[j] = v0.at(p0)[j];
+    }
+    const void * srcbuf = f.backend().get_backend().get_backend().get_backend().m_ptr.get();
+    size_t live_before = vf_heap_live();
     field<ST> t(f);
+    {
+        typename LF::non_owning_data_t v1(f.backend().get_backend().get_backend());
+        vf_assert(f.backend().get_backend().get_backend().get_backend().m_ptr.get() == srcbuf, 4);    // the source still owns its buffer
+        for (size_t j = 0; j < M; j++) vf_assert(vf::same_bits<S>(v1.at(p0)[j], snap[j]), 4);         // with its contents
+        for (size_t k = 0; k < N; k++) vf_assert(f.backend().get_backend().get_backend().get_configuration()[k] == s[k], 4);
+        vf_assert(t.backend().get_backend().get_backend().get_backend().m_ptr.get() != srcbuf, 5);    // the target has storage of its own
+        vf_assert(vf_heap_live() == live_before + 1, 5);                                              // exactly one new buffer
+    }
     bool cfg = true;
     for (size_t i = 0; i < N; i++)
         for (size_t j = 0; j < N + 1; j++) cfg = cfg && vf::same_bits<float>(t.backend().get_configuration()(i, j), m(i, j));
